@@ -310,6 +310,89 @@ def case_grad(D, Dy, sub):
     return Case(label, fn)
 
 
+def case_grad_obj(D, Dy, sub):
+    """reverse-mode gradients with respect to library OBJECTS passed as arguments (pytrees): the cotangent of every
+    constructor field must be the derivative of the loss w.r.t. that constructor argument — derived fields (Lambda of a
+    rank-one factor, nu / ln_beta of a density, …) are recomputed from the leaves, not carried along as constants"""
+    label = f"grad-obj/D{D}/Dy{Dy}/{sub}"
+    def fn(m):
+        rng = gen.rng_path(m.seed, label)
+        fails = []
+        params = dict(D=D, Dy=Dy)
+        J = jnp.asarray
+        B = rng.standard_normal((D, D)); L = J(B @ B.T + D * np.eye(D))[None]; nu = J(rng.standard_normal((1, D)))
+        x = J(gen.points(rng, 2, D)); y = J(gen.points(rng, 1, Dy))
+        U = gt_measure.GaussianMeasure(Lambda=L, nu=nu)
+        P = gt_pdf.GaussianPDF(Sigma=L, mu=nu)
+        Bs = rng.standard_normal((Dy, Dy)); Sy = J(Bs @ Bs.T + Dy * np.eye(Dy))[None]
+        objs = {
+            "OneRankFactor": (gt_factor.OneRankFactor, dict(v=J(rng.standard_normal((1, D))), g=J([0.7]), nu=J(rng.standard_normal((1, D))), ln_beta=J([0.3])),
+                              lambda f: U.hadamard(f, update_full=True).log_integral()[0], ("v", "g", "nu")),
+            "LinearFactor": (gt_factor.LinearFactor, dict(nu=J(rng.standard_normal((1, D))), ln_beta=J([0.2])),
+                             lambda f: U.hadamard(f, update_full=True).log_integral()[0], ("nu", "ln_beta")),
+            "GaussianPDF": (gt_pdf.GaussianPDF, dict(Sigma=L, mu=nu), lambda p: p.evaluate_ln(x)[0, 1], ("mu",)),
+            "GaussianMeasure": (gt_measure.GaussianMeasure, dict(Lambda=L, nu=nu, ln_beta=J([0.4])), lambda u: u.log_integral()[0], ("nu", "ln_beta")),
+            "ConditionalGaussianPDF": (gt_cond.ConditionalGaussianPDF, dict(M=J(rng.standard_normal((1, Dy, D))), b=J(rng.standard_normal((1, Dy))), Sigma=Sy),
+                                       lambda c: c.affine_marginal_transformation(P).evaluate_ln(y)[0, 0], ("M", "b")),
+        }
+        for name, (cls, kw, loss, fields) in objs.items():
+            try:
+                G = jax.grad(loss)(cls(**kw))
+            except Exception as e:
+                fails.append(failure(PROPERTY, f"grad-obj:{name}", f"jax.grad w.r.t. the object raised: {type(e).__name__}: {str(e)[:160]}", params=params)); continue
+            for fld in fields:
+                ref = fd_grad(lambda t, fld=fld: loss(cls(**dict(kw, **{fld: t}))), np.asarray(kw[fld]))
+                got = getattr(G, fld, None)
+                if got is None:
+                    fails.append(failure(PROPERTY, f"grad-obj:{name}.{fld}", "cotangent object has no such field", params=params)); continue
+                fail_if(fails, PROPERTY, f"grad-obj:{name}.{fld}", "cotangent of a constructor field differs from central differences over that constructor argument",
+                        np.asarray(got), ref, tol=1e-5, params=params)
+            # a gradient step on the leaves yields the object its constructor would build from the stepped fields
+            try:
+                obj = cls(**kw)
+                stepped = jax.tree_util.tree_map(lambda l: l, obj)
+                same = loss(stepped) - loss(obj)
+                fail_if(fails, PROPERTY, f"tree_map:{name}", "tree_map(identity) changes the object", np.asarray(same), np.zeros(()), params=params)
+            except Exception as e:
+                fails.append(failure(PROPERTY, f"tree_map:{name}", f"raised: {type(e).__name__}: {str(e)[:160]}", params=params))
+        return fails
+    return Case(label, fn)
+
+
+def case_jit_first(D):
+    """call order: the FIRST use of an operation (for a dimension nothing else in this process uses) happens under jit, the
+    same operation is then run eagerly on fresh objects and under a second jit trace; nothing created while tracing may leak"""
+    label = f"jit-first/D{D}"
+    def fn(m):
+        rng = gen.rng_path(m.seed, label)
+        fails = []
+        params = dict(D=D)
+        J = jnp.asarray
+        def fresh():
+            B = rng.standard_normal((D, D))
+            return gt_pdf.GaussianPDF(Sigma=J(B @ B.T + D * np.eye(D))[None], mu=J(rng.standard_normal((1, D))))
+        a = J(rng.standard_normal((D,)))
+        ops = {
+            "quadratic integral with omitted matrices": lambda p: p.integrate("(Ax+a)'(Bx+b)", a_vec=a, b_vec=a),
+            "cubic with omitted matrices": lambda p: p.integrate("(Ax+a)(Bx+b)'(Cx+c)", a_vec=a),
+            "log_integral": lambda p: p.log_integral(),
+            "entropy": lambda p: p.entropy(),
+            "marginal": lambda p: p.get_marginal(jnp.arange(max(1, D - 1))).evaluate_ln(J(np.zeros((1, max(1, D - 1))))),
+        }
+        for name, fun in ops.items():
+            p1, p2 = fresh(), fresh()
+            try:
+                j1 = np.asarray(jax.jit(fun)(p1))
+                e1 = np.asarray(fun(p1)); e2 = np.asarray(fun(p2))
+                j2 = np.asarray(jax.jit(lambda p: fun(p) * 1.0)(p2))
+            except Exception as e:
+                fails.append(failure(PROPERTY, f"jit-first:{name}", f"raised when the first call was traced: {type(e).__name__}: {str(e)[:200]}", params=params)); continue
+            fail_if(fails, PROPERTY, f"jit-first:{name}", "jit (first call) differs from eager", j1, e1, params=params)
+            fail_if(fails, PROPERTY, f"jit-first:{name}", "second jit trace differs from eager", j2, e2, params=params)
+        return fails
+    return Case(label, fn)
+
+
 def cases(seed, tier):
     rng = gen.rng_path(seed, "C18")
     out = []
@@ -325,6 +408,10 @@ def cases(seed, tier):
     if tier != "quick":
         out.append(case_scan(8, 3, 2))
     out.append(case_grad(2, 1, 0))
+    out.append(case_grad_obj(3, 2, 0))
     if tier != "quick":
         out.append(case_grad(3, 2, 1))
-    return seeded(out, seed)
+        out.append(case_grad_obj(2, 1, 1))
+    cases_ = seeded(out, seed)
+    # must come first in the process: its dimension (7) is used by no other case, and its first calls are traced
+    return seeded([case_jit_first(7)], seed) + cases_
